@@ -122,7 +122,7 @@ pub use mntax::{mnt_of, mnt_at};
 /// R12: `unsafe { BorrowedFd::borrow_raw(fd) }` -- forming a BorrowedFd from a negative number is UB
 #[verifier::external_body]
 pub fn borrow_raw_nonneg<'a>(fd: i32) -> (r: BorrowedFd<'a>)
-    requires fd >= 0                             // [C11+C17.borrow_raw.only_nonnegative]
+    requires fd >= 0                             // [C05+C11+C17.borrow_raw.only_nonnegative]
     ensures raw_of(r.id@) == fd as int, borrowed_from_c(r.id@)
 { unimplemented!() }
 pub trait IntoRawFd: Sized { fn into_raw_fd(self) -> (r: i32); }
